@@ -330,6 +330,8 @@ def halving_heights():
     for k in range(0, 67):
         for d in (-1, 0, 1):
             for iv in (210000, 150, 2016):
+                if iv == 2016 and k > 3:      # 2016 is not a halving interval: a few multiples suffice
+                    continue
                 h = k * iv + d
                 if h >= 0:
                     out.append(h)
@@ -385,9 +387,9 @@ def gen_cases(rng, tier):
     if T:
         hs += [(h, "height-sweep") for h in range(0, 70001)]
     else:
-        hs += [(h, "height-sweep") for h in range(0, 600)]
-        hs += [(rng.randrange(600, 70001), "height-sweep") for _ in range(400)]
-    hs += [(rng.randrange(70001, 2 ** 31), "height-rand") for _ in range(2000 if T else 300)]
+        hs += [(h, "height-sweep") for h in range(0, 320)]
+        hs += [(rng.randrange(320, 70001), "height-sweep") for _ in range(200)]
+    hs += [(rng.randrange(70001, 2 ** 31), "height-rand") for _ in range(2000 if T else 150)]
     wr = ids(1, 4000)[0]
     for h, cls in hs:
         strict = h >= 0
@@ -573,6 +575,15 @@ def prop_oracle(c):
     if op == "coinbase_txin":
         cs, seq, h = a
         if h is not None and not (0 <= h < 2 ** 31):
+            # outside the quantified heights only the unconditional clauses apply: null outpoint, <= 100 bytes
+            r = _call(_coinbase_txin, cs, seq, h)
+            if r[0] == "ok":
+                t = r[1]
+                if t[:36] != NULL32 + b"\xff" * 4:
+                    return "coinbase input does not spend the null outpoint"
+                n, o = rd_varint(t, 36)
+                if n > 100 or len(t) != o + n + len(seq):
+                    return "coinbase script of %d bytes exceeds 100" % n
             return None
         script = (ref_push_int(h) if h is not None else b"") + cs
         r = _call(_coinbase_txin, cs, seq, h)
@@ -586,6 +597,16 @@ def prop_oracle(c):
     if op == "coinbase_tx":
         cs, spk, reward, h, regtest, wroot = a
         if h is not None and not (0 <= h < 2 ** 31):
+            r = _call(_coinbase_tx, *a)
+            if r[0] == "ok":
+                try:
+                    d, _ = ref_parse_tx(r[1])
+                except Exception as e:
+                    return "coinbase transaction does not parse: %r" % (e,)
+                if len(d["ins"]) != 1 or d["ins"][0][0] != NULL32 or d["ins"][0][1] != 0xFFFFFFFF:
+                    return "coinbase does not have exactly one input spending the null outpoint"
+                if len(d["ins"][0][2]) > 100:
+                    return "coinbase script of %d bytes exceeds 100" % len(d["ins"][0][2])
             return None
         r = _call(_coinbase_tx, *a)
         script_len = len(cs) + (len(ref_push_int(h)) if h is not None else 0)
